@@ -1,6 +1,7 @@
 import Pi2.NotationThm
 import Pi2.PyTie
 import Pi2.Nary
+import Pi2.NotTie
 /-!
 # C12 — notation is transparent
 
@@ -107,5 +108,88 @@ theorem python_pattern_operations_are_the_model :
     (∀ p δ, δ ≠ [] → Gen.Py.instantiate p δ = Py.inst (Py.lookup δ) p) :=
   ⟨PyTie.translated, PyTie.evar_is_free_eq, PyTie.metavars_eq, PyTie.apply_esubst_eq, PyTie.apply_ssubst_eq,
    PyTie.instantiate_nil, PyTie.instantiate_eq⟩
+
+/-! ## the text of `pattern.py` on patterns with notation
+
+`Pi2/Gen/PyNotation.lean` is regenerated on every run (`vlib/transnot.py`) from the methods `instantiate`, `metavars`,
+`apply_esubst`, `apply_ssubst`, `evar_is_free`, `__eq__` of all eleven pattern classes (the `Instantiate` class included;
+`__eq__` as `@dataclass` generates it where the class does not write one) and `Instantiate.simplify`.  `NotTie.DK` says that
+every argument map is the item list of a Python `dict` (distinct keys); see `Pi2/NotTie.lean`. -/
+
+/-- the pattern operations on patterns with notation, as written in `pattern.py`, are the hand-written model (`instF`,
+`metavarsF`, `esubF`, `ssubF`, `simplifyF`, `peqF`) the theorems of this module are stated about: equal at every fuel -/
+theorem notation_text_is_the_model :
+    Gen.PyNot.translated = true ∧
+    (∀ n p δ, NotTie.DK p = true → NotTie.DKDict δ → Gen.PyNot.instantiate n p δ = instF n δ p) ∧
+    (∀ n p, NotTie.DK p = true → Gen.PyNot.metavars n p = metavarsF n p) ∧
+    (∀ n p x plug, NotTie.DK p = true → NotTie.DK plug = true → Gen.PyNot.apply_esubst n p x plug = esubF n x plug p) ∧
+    (∀ n p x plug, NotTie.DK p = true → NotTie.DK plug = true → Gen.PyNot.apply_ssubst n p x plug = ssubF n x plug p) ∧
+    (∀ n p m, NotTie.DK (.inst p m) = true → Gen.PyNot.simplify n (.inst p m) = (simplifyF n (.inst p m)).map some) ∧
+    (∀ n a b, NotTie.DK a = true → NotTie.DK b = true → Gen.PyNot.eq n a b = peqF n a b) :=
+  ⟨NotTie.translated, NotTie.instantiate_eq, NotTie.metavars_eq, NotTie.apply_esubst_eq, NotTie.apply_ssubst_eq,
+   NotTie.simplify_eq, NotTie.eq_eq⟩
+
+/-- `evar_is_free` as written (Python's `and` short-circuits, the model's `Implies/App` arm does not): every answer of the
+model is the answer of the text at the same fuel; answers of the two at any fuels agree; the verdict `True` is exact at every
+fuel; and the two do differ as functions of the fuel -/
+theorem notation_text_evar_is_free :
+    (∀ n e p b, NotTie.DK p = true → evarIsFreeF n e p = some b → Gen.PyNot.evar_is_free n p e = some b) ∧
+    (∀ n m e p b b', NotTie.DK p = true → Gen.PyNot.evar_is_free n p e = some b → evarIsFreeF m e p = some b' → b = b') ∧
+    (∀ n e p, NotTie.DK p = true → (Gen.PyNot.evar_is_free n p e = some true ↔ evarIsFreeF n e p = some true)) ∧
+    (Gen.PyNot.evar_is_free 2 (.imp (.evar 0) (.imp (.evar 1) (.evar 1))) 0 = some false ∧
+      evarIsFreeF 2 0 (.imp (.evar 0) (.imp (.evar 1) (.evar 1))) = none) :=
+  ⟨NotTie.evar_is_free_of_model, NotTie.evar_is_free_consistent, NotTie.evar_is_free_true_iff, NotTie.evar_is_free_differs⟩
+
+/-- the hypothesis of the two theorems above is an invariant: notation-free patterns and applications `N(args)` built by
+`Notation.__call__` (`frozendict(enumerate(args))`) have distinct keys, and `instantiate`, `apply_esubst`, `apply_ssubst`
+preserve it; it cannot be dropped (an association list with a repeated key is not a `dict`) -/
+theorem notation_text_distinct_keys :
+    (∀ q : Pat, NotTie.DK (NPat.ofPat q) = true) ∧
+    (∀ body args, NotTie.DK body = true → (∀ a ∈ args, NotTie.DK a = true) → NotTie.DK (.inst body (NotTie.enumFrom 0 args)) = true) ∧
+    (∀ n δ p r, NotTie.DK p = true → NotTie.DKDict δ → instF n δ p = some r → NotTie.DK r = true) ∧
+    (∀ n x plug p r, NotTie.DK p = true → NotTie.DK plug = true → esubF n x plug p = some r → NotTie.DK r = true) ∧
+    (∀ n x plug p r, NotTie.DK p = true → NotTie.DK plug = true → ssubF n x plug p = some r → NotTie.DK r = true) ∧
+    ((Gen.PyNot.instantiate 5 (.inst (.mv 1 [] [] [] [] []) []) [(1, .evar 1), (1, .evar 2)]).map NPat.expand = some (.evar 2) ∧
+      (instF 5 [(1, .evar 1), (1, .evar 2)] (.inst (.mv 1 [] [] [] [] []) [])).map NPat.expand = some (.evar 1)) :=
+  ⟨NotTie.DK_ofPat, NotTie.DK_call, NotTie.instF_DK, NotTie.esubF_DK, NotTie.ssubF_DK, NotTie.instantiate_needs_distinct_keys⟩
+
+/-- transparency, stated about the text: `==` as written is equality of full expansions, `instantiate` / `apply_esubst` /
+`apply_ssubst` as written commute with expansion, `metavars` as written is the set of the expansion, and whenever
+`evar_is_free` as written answers `True` the variable does not occur free in the expansion -/
+theorem notation_text_transparent :
+    (∀ n a b r, a.Shape = true → b.Shape = true → NotTie.DK a = true → NotTie.DK b = true →
+      Gen.PyNot.eq n a b = some r → r = decide (a.expand = b.expand)) ∧
+    (∀ n δ p r, p.Shape = true → ShapeMap δ = true → NotTie.DK p = true → NotTie.DKDict δ →
+      Gen.PyNot.instantiate n p δ = some r → r.expand = Py.inst (Py.lookup (expand.expandMap δ)) p.expand) ∧
+    (∀ n x plug p r, p.Shape = true → plug.Shape = true → NotTie.DK p = true → NotTie.DK plug = true →
+      Gen.PyNot.apply_esubst n p x plug = some r → r.expand = Py.esub x plug.expand p.expand) ∧
+    (∀ n x plug p r, p.Shape = true → plug.Shape = true → NotTie.DK p = true → NotTie.DK plug = true →
+      Gen.PyNot.apply_ssubst n p x plug = some r → r.expand = Py.ssub x plug.expand p.expand) ∧
+    (∀ n p L, p.Shape = true → NotTie.DK p = true → Gen.PyNot.metavars n p = some L →
+      ∀ j, j ∈ L ↔ j ∈ Py.metavars p.expand) ∧
+    (∀ n e p, p.Shape = true → NotTie.DK p = true → Gen.PyNot.evar_is_free n p e = some true →
+      p.expand.eFresh e = true) := by
+  refine ⟨?_, ?_, ?_, ?_, ?_, ?_⟩
+  · intro n a b r ha hb da db h
+    rw [NotTie.eq_eq n a b da db] at h
+    exact peqF_expand n a b r ha hb h
+  · intro n δ p r hp hδ dp dδ h
+    rw [NotTie.instantiate_eq n p δ dp dδ] at h
+    exact (instF_expand n δ p r hp hδ h).1
+  · intro n x plug p r hp hq dp dq h
+    rw [NotTie.apply_esubst_eq n p x plug dp dq] at h
+    exact (esubF_expand n x plug p r hp hq h).1
+  · intro n x plug p r hp hq dp dq h
+    rw [NotTie.apply_ssubst_eq n p x plug dp dq] at h
+    exact (ssubF_expand n x plug p r hp hq h).1
+  · intro n p L hp dp h
+    rw [NotTie.metavars_eq n p dp] at h
+    exact metavarsF_expand n p L hp h
+  · intro n e p hp dp h
+    exact (evarIsFreeF_expand n e p true hp ((NotTie.evar_is_free_true_iff n e p dp).mp h)).symm
+
+/-- non-vacuity: the text on `¬¬φ0` written with notation -/
+example : NotTie.DK (negN (negN (.mv 0 [] [] [] [] []))) = true := by decide
+example : Gen.PyNot.eq 50 (negN (negN (.mv 0 [] [] [] [] []))) (NPat.ofPat (negN (negN (.mv 0 [] [] [] [] []))).expand) = some true := by decide
 
 end C12
